@@ -85,6 +85,12 @@ class C03(PropertyCheck):
             vals[kh // 2][kw // 2] = Fraction(1)
         return {"h": kh, "w": kw, "vals": [q(v) for r in vals for v in r]}
 
+    @staticmethod
+    def _normalised(K):
+        vals = [Fraction(v) for v in K["vals"]]
+        S = sum(vals)
+        return {**K, "vals": qlist([v / S for v in vals])}
+
     def _frame_for(self, rng, kh, kw, lo, hi):
         h = rng.randint(max(lo, kh + 1), max(hi, kh + 2))
         w = rng.randint(max(lo, kw + 1), max(hi, kw + 2))
@@ -132,7 +138,9 @@ class C03(PropertyCheck):
             K = self._kernel(rng, kh, kw, "signed")
             vals = [Fraction(v) for v in K["vals"]]
             c = (kh // 2) * kw + kw // 2
-            vals[c] += 1 - sum(vals)
+            # entries sum to +-2^k: the normalisation the simulator and the dataset both apply is then exact
+            S = rng.choice([1, 1, 2, 4, 8, -2, Fraction(1, 2)])
+            vals[c] += S - sum(vals)
             K = {**K, "vals": qlist(vals)}
             A = self._values(rng, h * w, rng.choice(["int", "pos", "sparse"]))
             yield {"tag": f"simulate_{mk}", "kind": "simulate", "mask": mask_json(m), "kernel": K,
@@ -231,7 +239,7 @@ class C03(PropertyCheck):
             Kn = np.asarray(kernel.native.array)
             # background level lifts the (signed) convolved image above zero for the Poisson draw the
             # simulator always performs; it is subtracted again (exact in integers)
-            bg = float(int(np.abs(A).sum() * np.abs(Kn).sum()) + 1)
+            bg = float(int(np.abs(A).sum() * np.abs(Kn).sum() / abs(Kn.sum())) + 1)
             sim = aa.SimulatorImaging(exposure_time=1.0, background_sky_level=bg, psf=kernel,
                                       normalize_psf=True, add_poisson_noise_to_data=False,
                                       include_poisson_noise_in_noise_map=False, noise_seed=1)
@@ -263,9 +271,10 @@ class C03(PropertyCheck):
                      "matrix": case["matrix"], "ncols": case["ncols"]}]
         if kind == "simulate":
             mj = case["mask"]
-            return [{"op": "c03.conv_same", "h": mj["h"], "w": mj["w"], "kernel": case["kernel"],
+            Kn = self._normalised(case["kernel"])   # what `normalize_psf` / `use_normalized_psf` produce
+            return [{"op": "c03.conv_same", "h": mj["h"], "w": mj["w"], "kernel": Kn,
                      "image": case["image"]},
-                    {"op": "c03.convolve", "mask": mj, "kernel": case["kernel"], "image": case["image"],
+                    {"op": "c03.convolve", "mask": mj, "kernel": Kn, "image": case["image"],
                      "blur": case["image"]}]
         if kind == "operator":
             if "err" in impl_obs:
@@ -362,6 +371,9 @@ class C03(PropertyCheck):
     def _oracle(self, case, obs):
         kind = case["kind"]
         kh, kw, K = self._kernel_of(case)
+        if kind == "simulate":   # the PSF of a simulated dataset is the normalised kernel
+            S = sum(v for r in K for v in r)
+            K = [[v / S for v in r] for r in K]
         even = kh % 2 == 0 or kw % 2 == 0
         if kind == "same":
             if even:
